@@ -9,6 +9,7 @@ package excelize
 import (
 	"io"
 	"reflect"
+	"strconv"
 	"time"
 )
 
@@ -100,4 +101,31 @@ func VerifBufferedWriter(ops []int) (spilled bool, buffered int, contents []byte
 // VerifFormat exposes format: value text, number format code, date system and cell type.
 func VerifFormat(value, numFmt string, date1904 bool, cellType CellType) string {
 	return format(value, numFmt, date1904, cellType, &Options{})
+}
+
+// VerifCheckSheet runs checkSheet over rows with the given r attributes; row i holds one cell whose value is its
+// index and whose reference is in row nums[i] (no reference when nums[i] is 0). It returns the number of rows
+// afterwards and, per input row, the index of the row now holding its cell (-1: gone).
+func VerifCheckSheet(rs, nums []int) (int, []int) {
+	ws := &xlsxWorksheet{}
+	for i := range rs {
+		c := xlsxC{V: strconv.Itoa(i)}
+		if nums[i] > 0 {
+			c.R = "A" + strconv.Itoa(nums[i])
+		}
+		ws.SheetData.Row = append(ws.SheetData.Row, xlsxRow{R: rs[i], C: []xlsxC{c}})
+	}
+	ws.checkSheet()
+	placed := make([]int, len(rs))
+	for i := range placed {
+		placed[i] = -1
+	}
+	for j, row := range ws.SheetData.Row {
+		for _, c := range row.C {
+			if i, err := strconv.Atoi(c.V); err == nil && c.V != "" && i < len(placed) && placed[i] == -1 {
+				placed[i] = j
+			}
+		}
+	}
+	return len(ws.SheetData.Row), placed
 }
